@@ -614,7 +614,7 @@ def run(ctx):
                 # with least squares): relative to the largest component of the same derivative order.
                 r_, c_ = s["r"], s["c"]
                 Are = [[s["A"][i * c_ + j][0] for j in range(c_)] for i in range(r_)]
-                M = [[sum(Are[k][i] * Are[k][j] for k in range(r_)) for j in range(c_)] for i in range(c_)] if s["lsq"] else Are
+                M = [[sum(Are[k][i] * Are[k][j] for k in range(r_)) for j in range(c_)] for i in range(c_)] if s["lsq"] else row_equilibrated(Are)
                 cnd = cond_inf(M) if len(M) == len(M[0]) else float("inf")
                 rt = min(1e-3, 1e-9 + 1e-13 * cnd) if cnd == cnd else 1e-3
                 good = True
